@@ -261,6 +261,39 @@ pub fn roundtrip(ctx: &Ctx, rep: &mut Report) {
         }
     });
     rep.merge(r);
+    // the SAME seed for both parameter sets, back to back on one thread, in both orders (state
+    // remembered per thread and keyed by the seed alone hands one set's key to the other)
+    {
+        let nseq = ctx.sz(6, 60);
+        let r = par_for(nseq, ncpu(), |i, rep| {
+            let s = seed32(ctx.seed, &format!("c05-both-sets-{}", i));
+            let vseed = ctx.seed;
+            let mut local = Report::new();
+            let h = std::thread::scope(|sc| {
+                sc.spawn(|| {
+                    let mut r2 = Report::new();
+                    if i % 2 == 0 {
+                        check_seed::<F1024>(s, 2, vseed, &mut r2);
+                        check_seed::<F512>(s, 2, vseed, &mut r2);
+                        check_seed::<F1024>(s, 1, vseed, &mut r2);
+                    } else {
+                        check_seed::<F512>(s, 2, vseed, &mut r2);
+                        check_seed::<F1024>(s, 2, vseed, &mut r2);
+                        check_seed::<F512>(s, 1, vseed, &mut r2);
+                    }
+                    r2
+                })
+                .join()
+            });
+            if let Ok(r2) = h {
+                local.merge(r2);
+            }
+            local.count("same_seed_both_parameter_sets_sequences", 1);
+            rep.merge(local);
+        });
+        rep.merge(r);
+        rep.require("same_seed_both_parameter_sets_sequences", 6);
+    }
     rep.require("regression_seeds", 7);
     rep.require("keys_roundtripped", 50);
     rep.require("signatures_roundtripped", 200);
